@@ -185,6 +185,12 @@ def zone_types(G, with_zones=True):
 
 
 # shared spec vocabulary: who owns the records of a lookup result (proved in zone_lookup / cache, assumed by the stand-ins in local)
+QMATCH_RS = "pub open spec fn qmatch(t: RecordType, q: QueryType) -> bool { q == QueryType::Wildcard || q == QueryType::Record(t) }\n"
+ANSWER_TYPED_RS = """// an answer holds records of the asked type only (any type for ANY, none at all for AXFR / MAILA / MAILB)
+pub open spec fn answer_typed(r: ZoneResult, qtype: QueryType) -> bool {
+    r is Answer ==> forall|i: int| 0 <= i < r->rrs@.len() ==> qmatch(spec_rtype_of((#[trigger] r->rrs@[i]).rtype_with_data), qtype)
+}
+"""
 ALL_NAMED_RS = "pub open spec fn all_named(s: Seq<ResourceRecord>, n: DomainName) -> bool { forall|x: int| 0 <= x < s.len() ==> (#[trigger] s[x]).name == n }\n"
 OWNERS_OK_RS = """// owners of what a zone lookup returns: answer records are owned by the query name; a referral's records all have the same owner
 // (the delegation point), which is the query name or an ancestor of it
